@@ -620,7 +620,7 @@ def run(only=None):
 
     if want("history_with_out_of_range_calls"):
         s = rep.sub("history_with_out_of_range_calls",
-                    "every public function of the three codecs x 10 out-of-range arguments (empty, short, over-long, wrong container); "
+                    "every public function of the three codecs and of the helpers they are built on (CRC8, FiveBitChecksum, Hamming (16,11,4) / (17,12,3)) x 13 out-of-range arguments (empty, short, over-long, wrong container, and three that fail late - after the first octet has been consumed); "
                     "whatever that call does, the next valid encode / extract of 2 messages per codec gives the reference result")
         import numpy as _np
         funcs = {}
@@ -628,7 +628,19 @@ def run(only=None):
             for fn in ("encode", "deinterleave_all_bits", "deinterleave_data_bits", "deinterleave_cs5_bits", "deinterleave_crc8_bits", "set_parity"):
                 if hasattr(cls_, fn):
                     funcs[f"{cname}.{fn}"] = getattr(cls_, fn)
+        # ... and the public helpers the codecs are built on (their shared calculators / tables are part of every later encode)
+        from okdmr.dmrlib.etsi.fec.hamming_16_11_4 import Hamming16114 as _H16
+        from okdmr.dmrlib.etsi.fec.hamming_17_12_3 import Hamming17123 as _H17
+        for cname, cls_, fns in (("CRC8", CRC8, ("calculate", "check")), ("FiveBitChecksum", FiveBitChecksum, ("calculate", "generate", "verify")),
+                                 ("Hamming16114", _H16, ("generate", "check", "check_and_correct")), ("Hamming17123", _H17, ("generate", "check", "check_and_correct"))):
+            for fn in fns:
+                if callable(getattr(cls_, fn, None)):
+                    funcs[f"{cname}.{fn}"] = getattr(cls_, fn)
         bad_args = [
+            # calls that fail late, after part of the argument has been consumed
+            ("bit_text_with_a_typo_in_the_second_octet", lambda: "00010000" + "0011000x" + "0" * 12),
+            ("list_with_a_2_after_the_first_octet", lambda: [0, 1] * 6 + [2] + [0] * 15),
+            ("list_with_none_at_the_end", lambda: [1, 0] * 13 + [1, None]),
             ("empty_bitarray", lambda: bitarray()), ("bitarray_7", lambda: bitarray("1011011")), ("bitarray_73", lambda: bitarray("1" * 73)),
             ("bitarray_129", lambda: bitarray("10" * 64 + "1")), ("bitarray_200", lambda: bitarray("110" * 66 + "11")), ("bytes_9", lambda: bytes(range(9))),
             ("list_11", lambda: [1, 0, 1, 1, 0, 1, 0, 0, 1, 1, 1]), ("numpy_16", lambda: _np.array([1] * 16)), ("numpy_3", lambda: _np.array([1, 0, 1])),
